@@ -35,6 +35,12 @@ pub struct FnSpec {
     /// does; None = a free-standing function
     #[serde(default)]
     pub index: Option<usize>,
+    /// (block, i, j): once the block is built, the instructions at positions i and j change
+    /// places through `Block::instructions_mut()` (what an instruction scheduler does): the
+    /// block executes in the new order and instruction indices no longer equal positions although
+    /// nothing was removed.  Swaps naming a position the block does not have are skipped.
+    #[serde(default)]
+    pub swaps: Vec<(usize, usize, usize)>,
 }
 
 impl FnSpec {
@@ -69,6 +75,12 @@ impl FnSpec {
             }
             for _ in self.gaps.iter().filter(|g| **g == (bi, ops.len())) {
                 make_gap(block)?;
+            }
+            for (_, i, j) in self.swaps.iter().filter(|s| s.0 == bi) {
+                let v = block.instructions_mut();
+                if *i < v.len() && *j < v.len() {
+                    v.swap(*i, *j);
+                }
             }
         }
         for (h, t, c) in &self.edges {
@@ -111,6 +123,9 @@ impl FnSpec {
         }
         if !self.gaps.is_empty() {
             s.push_str(&format!(" instruction-index gaps before (block, position): {:?}\n", self.gaps));
+        }
+        if !self.swaps.is_empty() {
+            s.push_str(&format!(" then instructions swapped in place (block, position, position): {:?}\n", self.swaps));
         }
         for (h, t, c) in &self.edges {
             match c {
@@ -642,6 +657,7 @@ pub fn gen_fn(t: &mut Tape, p: &IlParams) -> GenFn {
             entry: Some(0),
             exit,
             gaps,
+            swaps: Vec::new(),
             index: if p.function_index && t.chance(1, 2) { Some(t.below(4)) } else { None },
         },
         pool,
